@@ -333,6 +333,19 @@ theorem substFramer_map (c : Ctx) (l : List String) :
           · have b' : ¬ f p2 = "actor" := fun e => b (i2a.1 e)
             simp [b, b', pure, Except.pure, hframer]
 
+theorem incompletePath_map (l : List String) : incompletePath (l.map f) = incompletePath l := by
+  have b1 := beq_kw hf "framer" (by simp [Keywords])
+  have b2 := beq_kw hf "frame" (by simp [Keywords])
+  have b3 := beq_kw hf "actor" (by simp [Keywords])
+  match l with
+  | [] => rfl
+  | [p0] => simp [incompletePath, b1]
+  | [p0, _] => simp [incompletePath, b1]
+  | [p0, _, p2] => simp [incompletePath, b1, b2, b3]
+  | [p0, _, _, _] => simp [incompletePath, b1]
+  | [p0, _, p2, _, p4] => simp [incompletePath, b1, b2, b3]
+  | p0 :: _ :: _ :: _ :: _ :: _ :: _ => simp [incompletePath, b1]
+
 /-- **equivariance of `Act.resolvePath`** under every keyword-respecting renaming of segments -/
 theorem resolveParts_map (c : Ctx) (inode : Option (List String)) (parts : List String) :
     resolveParts (c.map f) (inode.map (List.map f)) (parts.map f)
@@ -349,6 +362,10 @@ theorem resolveParts_map (c : Ctx) (inode : Option (List String)) (parts : List 
       exact prepend_map hf c inode parts
   simp only [hq]
   generalize (if parts.head? = some "" then parts else prepend c inode parts) = q
+  rw [incompletePath_map hf]
+  by_cases hinc : incompletePath q = true
+  · simp [hinc, Except.map]
+  simp only [hinc, Bool.false_eq_true, if_false]
   cases q with
   | nil => rfl
   | cons p0 rest =>
